@@ -313,6 +313,18 @@ def parseOp (w : World) (ws : List String) : POp :=
         if !w.calAlive then none else
         pure (.world (.calSp sp) ((if w.watch.isEmpty then [] else ["cal-refresh"]) ++ (if sp == w.cal.special then ["cal-unchanged"] else [])))
     | ["gtod", b] => do pure (.world (.gtod (← bool? b)) [])
+    | ["gtlater", b] => do
+        -- oracle: every gettimeofday() after the first one inside a library call fails (Clock k = none for k ≥ 1): no influence on the model
+        let b ← bool? b
+        pure (.pure [stateLine w true] [if b then "later-readings-fail" else "later-readings-ok"])
+    | ["skew", sub, inc, step] => do
+        -- the oracle of LATER gettimeofday() answers inside one library call (first + step ms + k·inc µs; `sub` µs below the
+        -- millisecond on every answer): the model reads the clock once per arming (C20_arm_reads_clock_once) and only
+        -- `usec / 1000` of that reading enters the delay, so the plan changes nothing the model computes
+        let sub ← bounded? sub 999; let inc ← bounded? inc 10000000; let step ← int? step
+        if step < -4000000 ∨ step > 4000000 then none else
+        pure (.pure [stateLine w true] [if sub = 0 ∧ inc = 0 ∧ step = 0 then "skew-off" else
+          if step < 0 then "skew-step-back" else if step > 0 then "skew-step-forward" else "skew-time-passes"])
     | ["caldel"] => do
         if !(w.calAlive && !anyWorkdayRunning w) then none else     -- the contract: only when no workday alarm is enabled
         pure (.world .caldel ["calendar-destroyed"])
